@@ -55,3 +55,30 @@ impl<'a> ConcatShim for [&'a [u8]; 2] {
     fn concat(&self) -> (r: Vec<u8>) ensures r@ == self@[0]@ + self@[1]@ { unimplemented!() }
 }
 // ===== end =====
+// ===== TRUSTED SHIM (unit raw_data, part 2): molecule OutPointVec as used by parse_dep_group_data (verify.rs) =====
+// OutPointVec is a molecule fixvec: 4-byte little-endian item count, then count * 36 bytes.  `from_slice` accepts exactly the
+// well-formed encodings; the entity then views those bytes (`as_slice`), `is_empty()` / `len()` speak about the ITEMS.
+#[verifier::external_body]
+pub struct OutPointVec { b: Vec<u8> }
+pub struct VerificationError { pub x: u8 }
+impl VerificationError {
+    #[verifier::external_body]
+    pub fn to_string(&self) -> (r: String) { unimplemented!() }
+}
+pub uninterp spec fn opv_items(bytes: Seq<u8>) -> nat;      // the item count encoded in the header of a well-formed fixvec
+impl OutPointVec {
+    pub uninterp spec fn s_bytes(&self) -> Seq<u8>;
+    pub open spec fn s_count(&self) -> nat { opv_items(self.s_bytes()) }
+    #[verifier::external_body]
+    pub fn from_slice(slice: &[u8]) -> (r: core::result::Result<OutPointVec, VerificationError>)
+        ensures r is Ok ==> r->Ok_0.s_bytes() == slice@ && slice@.len() == 4 + 36 * opv_items(slice@) { unimplemented!() }
+    #[verifier::external_body]
+    pub fn is_empty(&self) -> (r: bool) ensures r == (self.s_count() == 0) { unimplemented!() }
+    #[verifier::external_body]
+    pub fn len(&self) -> (r: usize) ensures r == self.s_count() { unimplemented!() }
+    #[verifier::external_body]
+    pub fn as_slice(&self) -> (r: &[u8]) ensures r@ == self.s_bytes(), r@.len() == 4 + 36 * self.s_count() { unimplemented!() }
+}
+#[verifier::external_body]
+pub fn vf_str_to_owned(s: &str) -> (r: String) { unimplemented!() }
+// ===== end =====
